@@ -137,7 +137,18 @@ func CreateNodeDataDir(fs vfs.FS, dir string) error {
 	if err := fs.MkdirAll(dir, 0o755); err != nil {
 		return err
 	}
-	return syncDir(fs, filepath.Dir(dir))
+	parent := filepath.Dir(dir)
+	if err := syncDir(fs, parent); err != nil {
+		return err
+	}
+	// MkdirAll might have created the parent (per host) directory too, its entry
+	// has to be made durable as well otherwise the whole tree is lost on a crash.
+	if grandParent := filepath.Dir(parent); grandParent != parent {
+		if _, err := fs.Stat(grandParent); err == nil {
+			return syncDir(fs, grandParent)
+		}
+	}
+	return nil
 }
 
 // CleanupNodeDataDir cleans up old data dir (should be called after successful switch).
